@@ -14,8 +14,13 @@ import traceback
 from . import VERIF, REPO, findings
 from .tally import Tally, jsonable, digest
 
-EVIDENCE_DIR = os.path.join(VERIF, 'evidence')
-REPLAY_DIR = os.path.join(VERIF, 'replay')
+if REPO == '/repo':
+    EVIDENCE_DIR = os.path.join(VERIF, 'evidence')
+    REPLAY_DIR = os.path.join(VERIF, 'replay')
+else:
+    # experiment against a scratch tree (BCT_REPO): never touch the committed evidence
+    EVIDENCE_DIR = os.path.join(VERIF, 'scratch', 'evidence')
+    REPLAY_DIR = os.path.join(VERIF, 'replay')
 
 
 class Ctx(object):
